@@ -103,7 +103,7 @@ RtClassHolds(name, env, T, v, codec) ==
               LET ms == AllMembers(ns[j][1]) IN
               \E h \in 1..Len(ms) : ms[h].q = "D" /\ Base(env, ms[h].t).k = "NULL"
     [] name = "XerRealText" ->
-         codec = "xer" /\ AnyLeaf(env, T, v, LAMBDA t, x : t.k = "REAL" /\ x.c = "F")
+         codec = "xer" /\ AnyLeaf(env, T, v, LAMBDA t, x : t.k = "REAL" /\ x.c \in {"F", "NAN", "PINF", "NINF"})
     [] name = "AbsentOptionalExtensibleChoice" ->
          /\ codec \in {"ber", "der"}
          /\ LET ns == SeqNodes(env, T, v) IN
